@@ -373,8 +373,11 @@ def MemberAttrs.applicableAttr (a : MemberAttrs) (k : Kind) (fallible : Bool) (t
 /-- `MemberAttrs::applicable_field_attr` (the validator's view) -/
 def MemberAttrs.applicableFieldAttr (a : MemberAttrs) (k : Kind) (fallible : Bool) (ty : TypePath) : Option MemberAttr :=
   (a.fieldAttr k fallible ty)
+    <|> (if fallible then a.fieldAttr k false ty else none)
     <|> (if k == .ownedIntoExisting then a.fieldAttr .ownedInto fallible ty else none)
+    <|> (if k == .ownedIntoExisting && fallible then a.fieldAttr .ownedInto false ty else none)
     <|> (if k == .refIntoExisting then a.fieldAttr .refInto fallible ty else none)
+    <|> (if k == .refIntoExisting && fallible then a.fieldAttr .refInto false ty else none)
 
 /-- `ParentChildField::get_for_kind` -/
 def ParentChildField.getForKind (pc : ParentChildField) (k : Kind) : Option ParentChildFieldAttr :=
